@@ -1,6 +1,6 @@
 """C04 — deleting an entity leaves no dangling reference and harms nothing else."""
 from vlib.tok import s as S
-from checks.storegen import World, PLAIN, BLOCK_KINDS, REL_OF
+from checks.storegen import World, PLAIN, BLOCK_KINDS, REL_OF, with_hdump
 ID = 'C04'
 THEOREMS = ['Nix.St.unlinkAll_frame', 'Nix.St.unlinkAll_no_incoming', 'Nix.St.unlinkAll_unreachable', 'Nix.St.unlinkAll_reach_mono', 'Nix.St.removeAllLinks_spec', 'Nix.St.deleteNested_unlinks', 'Nix.St.deleteNested_victim', 'Nix.St.removeEntity_spec', 'Nix.St.deleteBlock_spec', 'Nix.St.delete_only_unlinks', 'Nix.St.removeEntity_no_dangling', 'Nix.St.unlink_frame', 'Nix.St.deleteNested_fuel_indep', 'Nix.St.deleteSection_fuel_adequate', 'Nix.St.deleteSubSource_fuel_adequate', 'Nix.St.deleteBlockSource_fuel_adequate', 'Nix.St.delete_wt']
 LEAN_MODULES = ['NixModel.Props.C04', 'NixModel.Proofs.DeleteFuel', 'NixModel.Proofs.RolesHistory']
@@ -115,11 +115,11 @@ def holder_case(rng):
     order = list(arrs); rng.shuffle(order)
     for v in order[:rng.randint(1, 3)]:
         w.emit('dump')
-        w.emit('xcheck R %s' % m.slot); w.emit('xcheck R %s' % t.slot)
+        w.emit('xcheck R %s' % m.slot); w.emit('xcheck R %s' % t.slot); w.emit('xfeat %s' % m.slot); w.emit('xfeat %s' % t.slot)
         w.delete(v, rng.choice(['name', 'handle']))
         w.emit('dump')
         w.emit('valid %s deleted' % v.slot)
-        w.emit('xcheck R %s' % m.slot); w.emit('xcheck R %s' % t.slot)
+        w.emit('xcheck R %s' % m.slot); w.emit('xcheck R %s' % t.slot); w.emit('xfeat %s' % m.slot); w.emit('xfeat %s' % t.slot)
     return w.lines
 
 def history(rng, tier):
@@ -135,6 +135,8 @@ def history(rng, tier):
     for r_ in roots:
         attach_subtree(w, rng, r_)
     dense_links(w, rng)
+    for _ in range(rng.randint(0, 8)):
+        w.random_content_step()       # what the survivors contain (descriptors, extents, data, property values) must survive as well
     if rng.random() < 0.5:
         w.reopen('rw')
         dense_links(w, rng)
@@ -181,13 +183,17 @@ def history(rng, tier):
             w.emit('valid %s deleted' % sl)
         for e in below[:12]:
             w.emit('valid %s deleted' % e.slot)
+        if v.kind == 'A':
+            # features whose array went are still listed (without data); the others are still found through their array
+            for t in w.alive(['T', 'M'], block=v.block)[:4]:
+                w.emit('xfeat %s' % t.slot)
     return w.lines
 
 def cases(tier, seed, rng):
     from vlib.runner import Case
     n = 60 if tier == 'quick' else 1500
-    out = [Case(history(rng, tier), 'gen:graph') for _ in range(n)]
-    out += [Case(holder_case(rng), 'gen:holder-fields') for _ in range(8 if tier == 'quick' else 150)]
+    out = [Case(with_hdump(history(rng, tier), rng, 0.5), 'gen:graph') for _ in range(n)]
+    out += [Case(with_hdump(holder_case(rng), rng, 0.5), 'gen:holder-fields') for _ in range(8 if tier == 'quick' else 150)]
     # link paths around 256 characters ("/data/b/data_arrays/<name>", "/data/b/tags/<name>/references/<id>", "/data/b/groups/<name>/data_arrays/<id>")
     for length in (range(228, 246) if tier == 'quick' else range(150, 300)):
         out.append(Case(long_name_history(rng, length, 'array'), 'gen:long-array-name'))
